@@ -8,6 +8,8 @@ use std::net::{IpAddr, SocketAddr};
 
 pub mod discovery_adapter;
 pub mod error;
+#[cfg(passage_verif)]
+pub mod verif;
 
 // reexport errors types
 #[allow(unused_imports)]
